@@ -100,3 +100,63 @@ func (c *Chain) VerifyExt(height int64, v *ValKeys, ext []byte) (ok bool, panick
 	}
 	return res.Status == abci.ResponseVerifyVoteExtension_ACCEPT, ""
 }
+
+// HostileExtension produces a vote extension a byzantine (minority) validator could send.
+func HostileExtension(r *Rng, c *Chain, v *ValKeys, honest []byte) []byte {
+	var ext app.BridgeVoteExtension
+	_ = json.Unmarshal(honest, &ext)
+	junk := func(n int) []byte {
+		b := make([]byte, n)
+		for i := range b {
+			b[i] = byte(r.Intn(256))
+		}
+		return b
+	}
+	switch r.Pick(14) {
+	case 0:
+		return nil
+	case 1:
+		return junk(1 + r.Pick(80))
+	case 2:
+		if len(honest) > 2 {
+			return honest[:r.Pick(len(honest))]
+		}
+		return []byte("{")
+	case 3:
+		return []byte("null")
+	case 4:
+		return []byte(`{"OracleAttestations":null,"InitialSignature":null,"ValsetSignature":null}`)
+	case 5:
+		ext.InitialSignature = app.InitialSignature{SignatureA: junk(64), SignatureB: junk(64)}
+	case 6:
+		ext.InitialSignature = app.InitialSignature{SignatureA: junk(66), SignatureB: junk(10)}
+	case 7:
+		// somebody else's initial signatures
+		o := c.W.Vals[r.Pick(len(c.W.Vals))]
+		a := sha256.Sum256([]byte("TellorLayer: Initial bridge signature A"))
+		b := sha256.Sum256([]byte("TellorLayer: Initial bridge signature B"))
+		ext.InitialSignature = app.InitialSignature{SignatureA: o.BridgeSign(a[:]), SignatureB: o.BridgeSign(b[:])}
+	case 8:
+		ext.ValsetSignature = app.BridgeValsetSignature{Signature: junk(64), Timestamp: uint64(r.Int63())}
+	case 9:
+		ext.ValsetSignature = app.BridgeValsetSignature{Signature: junk(65), Timestamp: ext.ValsetSignature.Timestamp}
+	case 10:
+		ext.OracleAttestations = append(ext.OracleAttestations, app.OracleAttestation{Snapshot: junk(32), Attestation: junk(64)})
+	case 11:
+		if len(ext.OracleAttestations) > 0 {
+			ext.OracleAttestations = append(ext.OracleAttestations, ext.OracleAttestations[0])
+		} else {
+			ext.OracleAttestations = []app.OracleAttestation{{Snapshot: nil, Attestation: nil}}
+		}
+	case 12:
+		for i := range ext.OracleAttestations {
+			ext.OracleAttestations[i].Attestation = junk(64)
+		}
+		ext.ValsetSignature.Signature = junk(3)
+	default:
+		ext.InitialSignature.SignatureA = []byte{}
+		ext.ValsetSignature.Timestamp = 0
+	}
+	bz, _ := json.Marshal(ext)
+	return bz
+}
